@@ -29,7 +29,7 @@ EXPLANATION = (
     "branch array with component-relative positions, or storing sorted-order values at table-order rows is a "
     "violation. (R6.3) _sum_by_group_numba falls back to the numpy implementation under its index bound and both "
     "return (unique sorted indices, sums...). (R6.4) every read of net._lookups['internal_nodes'/'internal_branches'][t] "
-    "uses rows of the form branch_index[t][labels] - start(t). Decided: these three mechanisms; not decided: "
+    "uses rows of the form branch_index[t][labels] - start(t). (R6.5) the outputs of np.where over a condition are parallel arrays in pair order: one output is never indexed by another output of the same call, and an output of an outer comparison is scattered by the positions of the other output, never stored over all rows. (R6.6) user labels (reference columns of element tables, table indices) never enter arithmetic anywhere in the package; they are compared, sorted, made unique or used as index of an index lookup. Decided: these three mechanisms; not decided: "
     "permutation invariance of results as such.")
 ASSUMPTIONS = ["numpy fancy indexing semantics", "the sections of one element occupy adjacent pit rows in table order "
                "(established by create_pit_branch_entries via np.repeat)"]
